@@ -17,7 +17,8 @@ PROP = 'C07'
 LEVEL = 'exploration'
 RULE = ('fault programs = cause (div0 / overflow / subscript / illegal call / device failure) x operand types x '
         'expression depth 0-3 x place (main, SUB, FUNCTION) x handler (none, ON ERROR GOTO, ON ERROR RESUME NEXT) x '
-        '{-g, no -g}; totality programs = accepted C06 mutants and generated programs run with scripts; interrupt '
+        '{-g, no -g}; extreme-argument programs = every run-time library entry (builtins, conversions, device statements, PRINT, '
+        'PRINT USING, VAL/READ/INPUT text) x boundary and absurd values, under a RESUME NEXT handler and bare; totality programs = accepted C06 mutants and generated programs run with scripts; interrupt '
         'schedules = SIGINT at every tick boundary k (programs <=300 ticks) or 64 sampled k; non-trivial = module ran '
         '>=1 tick; distinct = program shape / (cause,place,handler,depth) / (program,k)')
 ASSUMPTIONS = ['runs are cut at a logical tick budget (reported separately, not a violation)',
@@ -98,6 +99,10 @@ STMT_CAUSES = [
     ('print-using-numstr', [], 'PRINT USING "&"; 5', None),
     ('print-using-esc-end', [], 'PRINT USING "x_"; 1', None),
     ('print-using-bang-empty', [], 'PRINT USING "!"; ""', None),
+    ('print-using-no-values', [], 'PRINT USING "abc";', None),
+    ('print-using-no-values-field', [], 'PRINT USING "##.#";', None),
+    ('print-using-empty-format', [], 'PRINT USING ""; 1', None),
+    ('print-using-only-separators', [], 'PRINT USING "#"; 1; ; 2', None),
     ('val-huge', ['zs$ = "1e40"'], 'PRINT VAL(zs$)', None),
     ('val-dexp', ['zs$ = "1d400"'], 'PRINT VAL(zs$)', None),
     ('val-hex', ['zs$ = "&HFFFFFFFFF"'], 'PRINT VAL(zs$)', None),
@@ -200,6 +205,9 @@ def gen_cases(tier, seed):
     n = 60 if tier == 'quick' else 1200
     for i, b in enumerate(gen_cases_corpus(n, seed, opts={'max_stmts': 6}, with_repo=False)):
         cs.append({'kind': 'total', 'base': b, 'mseed': seed * 31 + i, 'nmut': 6 if tier == 'quick' else 12})
+    ne = len(extreme_programs())
+    for lo in range(0, ne, 4):
+        cs.append({'kind': 'extreme', 'lo': lo, 'hi': min(ne, lo + 4)})
     # interrupt schedules
     n = 40 if tier == 'quick' else 400
     for i, b in enumerate(gen_cases_corpus(n, seed + 5, opts={'max_stmts': 4, 'max_depth': 1, 'input': True}, with_repo=False)):
@@ -405,8 +413,145 @@ def run_total(case):
             'sample': {'program': texts[-1][:300]} if shapes else None}
 
 
+# --- extreme arguments: every run-time library entry (builtin, conversion, device statement, PRINT / PRINT USING, the
+# text-to-number parser behind VAL / READ / INPUT) fed boundary and absurd values; only totality is demanded ------------
+EXT_NUM_VALUES = [
+    ('%', '0'), ('%', '1'), ('%', '-1'), ('%', '255'), ('%', '256'), ('%', '-32768'), ('%', '32767'),
+    ('&', '65535'), ('&', '65536'), ('&', '-2147483647 - 1'), ('&', '2147483647'), ('&', '100000'),
+    ('!', '0.5'), ('!', '-0.5'), ('!', '1.5'), ('!', '3.4E+38'), ('!', '-3.4E+38'), ('!', '1E-38'), ('!', '16777216'), ('!', '1E+10'),
+    ('#', '1D+300'), ('#', '-1D+300'), ('#', '1.7976931348623157D+308'), ('#', '4.9D-324'), ('#', '1D-300'), ('#', '0.1#'),
+    ('#', '2147483647.5#'), ('#', '-2147483648.5#'), ('#', '32767.5#'), ('#', '1D+17'), ('#', '-0.5#'), ('#', '1D+38'), ('#', '123456789012345678#'),
+]
+EXT_NUM_STMTS = [
+    'PRINT ABS({v})', 'PRINT CINT({v})', 'PRINT CLNG({v})', 'PRINT INT({v})', 'PRINT STR$({v})', 'PRINT CHR$({v})',
+    'PRINT LEN(SPACE$({v}))', 'PRINT LEN(STRING$({v}, 65))', 'PRINT STRING$(3, {v})', 'PRINT LEFT$("abc", {v})',
+    'PRINT RIGHT$("abc", {v})', 'PRINT MID$("abc", {v})', 'PRINT MID$("abc", 1, {v})', 'PRINT MID$("abc", {v}, {v})',
+    'PRINT INSTR({v}, "abc", "b")', 'PRINT NOT {v}', 'PRINT -{v}', 'PRINT {v} ^ 2', 'PRINT 2 ^ {v}', 'PRINT {v} ^ {v}',
+    'PRINT {v} ^ 0.5', 'PRINT {v} \\ 3', 'PRINT 3 \\ {v}', 'PRINT {v} MOD 7', 'PRINT 7 MOD {v}', 'PRINT {v} AND 5', 'PRINT {v} * {v}',
+    'PRINT {v} + {v}', 'PRINT {v} - (-{v})', 'PRINT {v} / 3', 'PRINT 1 / {v}', 'PRINT {v} = {v}', 'PRINT PEEK({v})', 'PRINT RND({v})',
+    'LOCATE {v}, {v}', 'LOCATE , , {v}', 'COLOR {v}', 'COLOR , {v}', 'COLOR {v}, {v}, {v}', 'WIDTH {v}', 'WIDTH , {v}', 'SOUND {v}, {v}', 'POKE {v}, {v}',
+    'DEF SEG = {v}', 'SCREEN {v}', 'VIEW PRINT {v} TO {v}', 'RANDOMIZE {v}', 'DIM zd{n}({v})', 'DIM ze{n}({v} TO {v})', 'zarr({v}) = 1',
+    'PRINT zarr({v})', 'PRINT {v}', 'PRINT {v},', 'PRINT {v}; {v}', 'zi% = {v}', 'zl& = {v}', 'zf! = {v}', 'zg# = {v}',
+    'FOR zk{n} = {v} TO {v}: EXIT FOR: NEXT', 'FOR zm{n}% = 1 TO 2 STEP {v}: EXIT FOR: NEXT', 'SELECT CASE {v}: CASE 1 TO 2: CASE IS > 5: END SELECT',
+    'IF {v} THEN PRINT 1', 'WHILE {v} AND 0: WEND', 'PRINT USING "###"; {v}', 'PRINT USING "##.##"; {v}', 'PRINT USING "+#,###.#-"; {v}',
+    'PRINT USING "#"; {v}; {v}', 'PRINT USING ".##"; {v}', 'PRINT USING "#.####################"; {v}', 'PRINT USING "&"; STR$({v})',
+    'PRINT USING "**$##.##^^^^"; {v}', 'PRINT USING "_##"; {v}', 'PRINT USING "##"; {v},', 'PRINT VAL(STR$({v}))', 'PRINT LEN(STR$({v}))',
+    'zsubv ({v})', 'PRINT zfunv({v} + 0)', 'BEEP: CLS',
+]
+EXT_STR_VALUES = [
+    '""', '"a"', '" "', '"1e400"', 'STRING$(400, "9")', '"-" + STRING$(400, "9")', '"." + STRING$(400, "0") + "1"',
+    '"1" + STRING$(400, "0") + "e-400"', '"1e-400"', '"&H"', '"&HFFFF"', '"&HFFFFFFFFFF"', '"&O777"', '"1d"', '"1e+"', '"+"', '"-"', '"."',
+    '"1..2"', '"nan"', '"inf"', '"-inf"', '"1_0"', '"1,5"', '" 12 "', '"12abc"', '"1e5"', '"1D5"', '"--1"', '"1e400x"', '"0x10"',
+    'CHR$(0)', 'CHR$(255)', 'CHR$(13) + CHR$(10)', 'STRING$(300, "x")', 'STRING$(32767, "y")', 'STRING$(32767, "y") + STRING$(32767, "y")',
+    '"40000%"', '"1#"', '"1!"', '"1&"', '"1%"', '".5"', '"5."', '"1e"', '"e5"', '"d"', '"1 2"', '"9" + STRING$(308, "0")',
+    '"1" + STRING$(309, "0")', '"0." + STRING$(330, "0") + "1"',
+]
+EXT_STR_STMTS = [
+    'PRINT LEN({s})', 'PRINT ASC({s})', 'PRINT VAL({s})', 'PRINT LEN(UCASE$({s}))', 'PRINT LEN(LCASE$({s}))', 'PRINT LEN(LTRIM$({s}))',
+    'PRINT LEN(RTRIM$({s}))', 'PRINT LEN(LEFT$({s}, 2))', 'PRINT LEN(RIGHT$({s}, 2))', 'PRINT LEN(MID$({s}, 2, 3))', 'PRINT INSTR({s}, "a")',
+    'PRINT INSTR("a", {s})', 'PRINT INSTR({s}, {s})', 'PRINT LEN({s} + {s})', 'PRINT {s} < "a"', 'PRINT {s} = {s}', 'PRINT LEN(STRING$(2, {s}))',
+    'PRINT USING "&"; LEFT$({s}, 5)', 'PRINT USING "!"; {s}', 'PRINT USING "\\  \\"; LEFT$({s}, 9)', 'PRINT USING LEFT$({s}, 20); 1',
+    'PRINT USING LEFT$({s}, 20); "x"', 'PLAY LEFT$({s}, 30)', 'KILL LEFT$({s}, 30)', 'zi% = VAL({s})', 'zl& = VAL({s})', 'zf! = VAL({s})',
+    'zg# = VAL({s})', 'PRINT LEFT$({s}, 10)', 'SELECT CASE {s}: CASE "a" TO "b": END SELECT', 'zsubs {s}', 'PRINT CINT(VAL({s}))',
+    'PRINT STR$(VAL({s}))', 'BLOAD LEFT$({s}, 12), 0',
+]
+EXT_TEXT_ITEMS = ['1e400', '9' * 400, '-' + '9' * 400, '.' + '0' * 400 + '1', '1' + '0' * 400 + 'e-400', '1e-400', '&H', '&HFFFF', '1d', '1e+',
+                  '+', '-', '.', '1..2', 'nan', 'inf', '-inf', '1_0', '12abc', '1D5', '--1', '40000%', '1#', '.5', '5.', '1e', 'e5',
+                  '9' + '0' * 308, '1' + '0' * 309, '0.' + '0' * 330 + '1', '32767.5', '-32768.5', '2147483647.5', '3.5e38', '1.8d308',
+                  '\u0661\u0662', '\uff11', '1\u00a0', '\u00b2']
+EXT_TAIL = ('END\nzh: zerrs% = zerrs% + 1\nRESUME NEXT\nSUB zsubv (p#)\nPRINT p#\nEND SUB\nFUNCTION zfunv# (p!)\nzfunv# = p!\nEND FUNCTION\n'
+            'SUB zsubs (p$)\nPRINT LEN(p$)\nEND SUB\n')
+
+
+def extreme_programs():
+    """-> list of (tag, text, script, handler)"""
+    out = []
+    for vi, (t, v) in enumerate(EXT_NUM_VALUES):
+        lines = ['ON ERROR GOTO zh', 'DIM zarr(5)', f'zv{t} = {v}']
+        for n, stt in enumerate(EXT_NUM_STMTS):
+            lines.append(stt.replace('{v}', f'zv{t}').replace('{n}', str(n)))
+        out.append((f'num|{t}|{v}', '\n'.join(lines) + '\nPRINT "done"; zerrs%\n' + EXT_TAIL, {}, True))
+    for si, sv in enumerate(EXT_STR_VALUES):
+        lines = ['ON ERROR GOTO zh', f'zs$ = {sv}']
+        for n, stt in enumerate(EXT_STR_STMTS):
+            lines.append(stt.replace('{s}', 'zs$').replace('{n}', str(n)))
+        out.append((f'str|{sv[:30]}', '\n'.join(lines) + '\nPRINT "done"; zerrs%\n' + EXT_TAIL, {}, True))
+    items = [x.encode().decode('unicode_escape') for x in EXT_TEXT_ITEMS]
+    for t in '%&!#$':
+        # INPUT: every pool item as a response (bad ones are answered with Redo and the next one is read), then a good one
+        lines = ['ON ERROR GOTO zh'] + [f'INPUT zq{t}: PRINT zq{t}' for _ in range(6)]
+        out.append((f'input|{t}', '\n'.join(lines) + '\nPRINT "done"; zerrs%\n' + EXT_TAIL, {'input': items + ['1'] * 8}, True))
+        ascii_items = [x for x in items if all(32 <= ord(c) < 127 for c in x)]
+        lines = ['ON ERROR GOTO zh'] + [f'READ zq{t}: PRINT zq{t}' for _ in ascii_items] + ['DATA ' + ', '.join(ascii_items)]
+        out.append((f'read|{t}', '\n'.join(lines) + '\nPRINT "done"; zerrs%\n' + EXT_TAIL, {}, True))
+    # the same single statements with no handler armed (the default reporting path), a rotating sample
+    k = 0
+    for vi, (t, v) in enumerate(EXT_NUM_VALUES):
+        for n, stt in enumerate(EXT_NUM_STMTS):
+            k += 1
+            if k % 23 == 0:
+                text = f'DIM zarr(5)\nzv{t} = {v}\n' + stt.replace('{v}', f'zv{t}').replace('{n}', str(n)) + '\nPRINT "after"\n' + EXT_TAIL
+                out.append((f'num1|{t}|{v}|{n}', text, {}, False))
+    for si, sv in enumerate(EXT_STR_VALUES):
+        for n, stt in enumerate(EXT_STR_STMTS):
+            k += 1
+            if k % 17 == 0:
+                text = f'zs$ = {sv}\n' + stt.replace('{s}', 'zs$') + '\nPRINT "after"\n' + EXT_TAIL
+                out.append((f'str1|{sv[:20]}|{n}', text, {}, False))
+    return out
+
+
+_EXT = None
+
+
+def run_extreme(case):
+    global _EXT
+    if _EXT is None:
+        _EXT = extreme_programs()
+    st = {'extreme_programs': 0, 'extreme_runs': 0, 'extreme_traps_resumed': 0, 'extreme_rejected': 0, 'totality_runs': 0,
+          'extreme_tick_budget': 0}
+    viol = []
+    shapes = []
+    sample = None
+    for idx in range(case['lo'], case['hi']):
+        tag, text, script, handler = _EXT[idx]
+        cfgs = [(idx % 3, True)] if handler else [(idx % 3, bool(idx % 2))]
+        for cfg in cfgs:
+            full = dict(cases.gen_script(idx))
+            full.update(script)
+            o = diff.observe(text, cfg, full, max_ticks=400000)
+            st['extreme_programs'] += 1
+            if o['status'] == 'crash':
+                viol.append(V(f"C07:extreme:compile-crash:{o['brief'][1] if len(o['brief']) > 1 else ''}", f'{tag}: {o["brief"]}', text=text[:3000], cfg=cfg))
+                continue
+            if o['status'] != 'ok' or 'outcome' not in o:
+                st['extreme_rejected'] += 1
+                viol.append(V('C07:extreme:program-rejected', f'{tag}: the harness program is not accepted: {o["brief"]}', text=text[:3000]))
+                continue
+            st['extreme_runs'] += 1
+            st['totality_runs'] += 1
+            shapes.append(f'extreme|{tag}|{rt.cfg_name(cfg)}')
+            oc = o['outcome']
+            if oc[0] == 'crash':
+                viol.append(V(f'C07:host-exception:{oc[1]}', f'extreme arguments [{tag}] at {rt.cfg_name(cfg)}: host exception escaped '
+                              f'tick(): {(o.get("crash_tb") or "")[-500:]}', text=text[:3000], cfg=cfg))
+            elif oc[0] == 'tick_budget':
+                st['extreme_tick_budget'] += 1
+            elif oc[0] not in ('halt', 'end_of_code', 'trap'):
+                viol.append(V(f'C07:undefined-end:{oc[0]}', f'{tag}: {oc}', text=text[:3000], cfg=cfg))
+            elif handler and oc[0] == 'trap' and oc[1] not in ('DEVICE_ERROR:OP_FAILED',):
+                # with a handler armed and RESUME NEXT every language error is resumed; ending in a trap is only legitimate
+                # when the script runs dry (INPUT) - reported as a note through the counter, not a verdict
+                st['extreme_ended_in_trap'] = st.get('extreme_ended_in_trap', 0) + 1
+            if sample is None:
+                sample = {'extreme': tag, 'outcome': oc, 'program_head': text[:300]}
+    return {'viol': viol, 'stats': st, 'shape': shapes, 'nontrivial': bool(shapes), 'sample': sample}
+
+
 def run_case(case):
     k = case['kind']
+    if k == 'extreme':
+        return run_extreme(case)
     if k == 'fault':
         return run_fault(case)
     if k == 'irq':
